@@ -162,7 +162,16 @@ def FILE(f):
 
 
 ROOTS = {
-    "C01": ALL, "C03": ALL, "C04": ALL, "C11": ALL, "C17": ALL, "C18": ALL, "C19": ALL,
+    "C04": ALL, "C11": ALL, "C17": ALL, "C18": ALL, "C19": ALL,
+    # the mutators (and the bookkeeping observers the property names)
+    "C01": M("len", "capacity", "is_empty", "is_full", "push_back", "push_front", r"try_push_\w+", r"pop_\w+", "remove", "swap",
+             r"swap_remove_\w+", r"truncate_\w+", "clear", "extend_from_slice", r"fill\w*", "drain", "make_contiguous",
+             "get_mut", r"nth_\w+_mut", "front_mut", "back_mut", "as_mut_slices", "iter_mut", "range_mut")
+    + IMPL("Extend|IndexMut") + EVERY("Drain", "IterMut"),
+    # everything that moves ownership of elements
+    "C03": M("push_back", "push_front", r"try_push_\w+", r"pop_\w+", "remove", r"swap_remove_\w+", r"truncate_\w+", "clear",
+             "extend_from_slice", r"fill\w*", "drain", "into_iter", "to_vec", "new", "boxed")
+    + IMPL("Extend|FromIterator|From|Clone|Drop|IntoIterator|Default") + EVERY("Drain", "IntoIter"),
     "C02": M("push_back", "push_front", "try_push_back", "try_push_front"),
     "C05": M("truncate_back", "truncate_front", "clear", "fill", "fill_with", "fill_spare", "extend_from_slice",
              "drain", "into_iter")
@@ -194,7 +203,9 @@ def roots(pid, sc):
     ns = nodes(sc)
     spec = ROOTS[pid]
     if spec == ALL:
-        return set(ns)
+        # every function; types, consts, macros come in through the references of the functions that use
+        # them. Marker impls without methods (Send, Sync, Eq, FusedIterator ...) are not operations: C15's business
+        return {n for n, v in ns.items() if is_fn(v)}
     out = set()
     for pat in spec:
         if pat.startswith("file="):
@@ -247,7 +258,7 @@ def check(pid, repo=None):
     changed = sorted(n for n in dep_now if n not in old or old[n]["hash"] != now[n]["hash"])
     removed = sorted(n for n in dep_old if n not in now)
     new_items = sorted(n for n in now if n not in old
-                       and (is_all or n in dep_now or (ROOTS[pid] and now[n].get("vis") == "pub")))
+                       and ((is_all and is_fn(now[n])) or n in dep_now or (ROOTS[pid] and now[n].get("vis") == "pub")))
     lits, feats = set(), set()
     for n in sorted(set(changed) | set(new_items)):
         o = old.get(n, {})
